@@ -43,7 +43,8 @@ func runC07(c *an.Ctx) {
 	// (1)
 	{
 		var cmps []ssa.Value
-		for _, v := range an.FindValues(pre, func(v ssa.Value) bool {
+		var preVals []ssa.Value
+		isNonceCmp := func(v ssa.Value) bool {
 			b, ok := v.(*ssa.BinOp)
 			if !ok || (b.Op != token.LSS && b.Op != token.GTR) {
 				return false
@@ -51,14 +52,23 @@ func runC07(c *an.Ctx) {
 			cx, okx := b.X.(*ssa.Call)
 			cy, oky := b.Y.(*ssa.Call)
 			return okx && oky && an.CalleeObj(&cx.Call) != nil && an.CalleeObj(&cx.Call).Name() == "GetNonce" && an.CalleeObj(&cy.Call) != nil && an.CalleeObj(&cy.Call).Name() == "Nonce"
-		}) {
-			cmps = append(cmps, v)
 		}
-		c.Check(len(cmps) == 2, "shape|preCheck|nonce-comparisons", "the account nonce is compared with the transaction nonce in both directions", c.P.Rel(pre.Pos()), fmt.Sprintf("%d comparisons", len(cmps)))
+		// preCheck and the private helpers it is split into
+		for _, g := range an.InlineReach(pre) {
+			preVals = append(preVals, an.FindValues(g, isNonceCmp)...)
+		}
+		ops := map[token.Token]bool{}
+		for _, v := range preVals {
+			cmps = append(cmps, v)
+			ops[v.(*ssa.BinOp).Op] = true
+		}
+		c.Check(len(cmps) == 2 && ops[token.LSS] && ops[token.GTR], "shape|preCheck|nonce-comparisons", "the account nonce is compared with the transaction nonce in both directions", c.P.Rel(pre.Pos()), fmt.Sprintf("%d comparisons", len(cmps)))
 		extra := map[ssa.Value]an.Abs{}
-		for _, k := range an.Calls(pre) {
-			if o := an.CalleeObj(k.Common()); o != nil && o.Name() == "CheckNonce" {
-				extra[k.Value()] = an.ATrue
+		for _, g := range an.InlineReach(pre) {
+			for _, k := range an.Calls(g) {
+				if o := an.CalleeObj(k.Common()); o != nil && o.Name() == "CheckNonce" {
+					extra[k.Value()] = an.ATrue
+				}
 			}
 		}
 		for i, cmp := range cmps {
@@ -139,12 +149,18 @@ func runC07(c *an.Ctx) {
 		setNonce := method("SetNonce")
 		getNonce := method("GetNonce")
 		var incs []ssa.Instruction
-		for _, k := range an.Calls(tdb) {
+		var tdbCalls []ssa.CallInstruction
+		for _, g := range an.InlineReach(tdb) {
+			tdbCalls = append(tdbCalls, an.Calls(g)...)
+		}
+		nSet, nCreate := 0, 0
+		for _, k := range tdbCalls {
 			o := an.CalleeObj(k.Common())
 			if o == nil {
 				continue
 			}
 			if o == setNonce {
+				nSet++
 				// argument is GetNonce(...)+1
 				arg := argsNoRecv(k.Common())[1]
 				b, isB := arg.(*ssa.BinOp)
@@ -160,10 +176,11 @@ func runC07(c *an.Ctx) {
 				incs = append(incs, k)
 			}
 			if o.Name() == "Create" && o.Pkg() != nil && o.Pkg().Path() == an.RepoMod+"/vm/evm" {
+				nCreate++
 				incs = append(incs, k)
 			}
 		}
-		c.Check(len(incs) == 3, "shape|TransitionDb|nonce-increment-sites", "three alternative nonce increment sites (call branch, failed-precondition branch, contract creation)", c.P.Rel(tdb.Pos()), fmt.Sprintf("%d", len(incs)))
+		c.Check(nSet >= 1 && nCreate == 1, "shape|TransitionDb|nonce-increment-sites", "the sender nonce is incremented by SetNonce(from, GetNonce+1) (call branch, failed-precondition branch) or by evm.Create (contract creation)", c.P.Rel(tdb.Pos()), fmt.Sprintf("%d SetNonce sites, %d Create sites", nSet, nCreate))
 		ok, why := an.MustPassToSuccess(c.P, tdb, incs)
 		c.Check(ok, "sequence|TransitionDb|at-least-one-nonce-increment", "every path to a result increments the sender nonce", c.P.Rel(tdb.Pos()), why)
 		twice := ""
@@ -206,7 +223,7 @@ func runC07(c *an.Ctx) {
 		addBal := method("AddBalance")
 		fee := false
 		var credits []ssa.Instruction
-		for _, k := range an.CallsTo(tdb, addBal) {
+		for _, k := range an.CallsToReach(tdb, addBal) {
 			args := argsNoRecv(k.Common())
 			if fieldOfLoad(args[0]) != nil && fieldOfLoad(args[0]).Name() == "GasReceiver" {
 				credits = append(credits, k)
@@ -220,9 +237,11 @@ func runC07(c *an.Ctx) {
 		c.Check(ok, "sequence|TransitionDb|fee-credit-on-every-result", "the fee receiver is credited on every path to a result", c.P.Rel(tdb.Pos()), why)
 		// UsedGas field of the result
 		used := false
-		for _, w := range an.DirectFieldWrites(tdb) {
-			if w.Field.Name() == "UsedGas" && dependsOnCall(w.Val, gasUsed, 0) {
-				used = true
+		for _, g := range an.InlineReach(tdb) {
+			for _, w := range an.DirectFieldWrites(g) {
+				if w.Field.Name() == "UsedGas" && dependsOnCall(w.Val, gasUsed, 0) {
+					used = true
+				}
 			}
 		}
 		c.Check(used, "same-subject|TransitionDb|UsedGas-is-gasUsed", "the reported UsedGas is gasUsed()", c.P.Rel(tdb.Pos()), "UsedGas does not derive from a gasUsed() call")
@@ -236,6 +255,16 @@ func dependsOnCall(v ssa.Value, fn *ssa.Function, depth int) bool {
 	}
 	if k, ok := v.(*ssa.Call); ok && k.Call.StaticCallee() == fn {
 		return true
+	}
+	// the value returned by a private helper of the same package: what the helper returns
+	if k, ok := v.(*ssa.Call); ok {
+		if callee := k.Call.StaticCallee(); callee != nil && callee.Blocks != nil && callee.Pkg == fn.Pkg && callee.Object() != nil && !callee.Object().Exported() && callee.Signature.Results().Len() == 1 {
+			for _, r := range an.Returns(callee) {
+				if dependsOnCall(r.Results[0], fn, depth+1) {
+					return true
+				}
+			}
+		}
 	}
 	if in, ok := v.(ssa.Instruction); ok {
 		for _, op := range in.Operands(nil) {
